@@ -464,8 +464,15 @@ def rule_lookup_unwrap(ctx, config='dev'):
                     ce = m.expr_of_operand(tt['d'])
                     if not (ce and ce[0] == 'bin' and ce[1] in ('Eq', 'Ne')):
                         continue
-                    sent = any(y and y[0] == 'const' and isinstance(y[1], int) and y[1] < -1 for y in (ce[2], ce[3]))
+                    sent = [y[1] for y in (ce[2], ce[3]) if y and y[0] == 'const' and isinstance(y[1], int) and not isinstance(y[1], bool) and y[1] < -1]
                     if not sent:
+                        continue
+                    # the sentinel must be a *stored* value: a lookup that falls back to the sentinel itself (`unwrap_or(-2)`) yields it
+                    # for keys that were never announced, and then proves nothing
+                    other_side = [y for y in (ce[2], ce[3]) if not (y and y[0] == 'const')]
+                    if any(isinstance(w, tuple) and w and w[0] == 'call' and w[1].rsplit('::', 1)[-1] in ('unwrap_or', 'map_or') and len(w[2]) >= 2
+                           and any(a and a[0] == 'const' and a[1] == sent[0] for a in w[2][1:])
+                           for y in other_side for w in walk(y)):
                         continue
                     zero_t = [y[1] for y in tt['targets'] if y[0] == 0]
                     other = [y for y in [tt['otherwise']] + [z[1] for z in tt['targets'] if z[0] != 0] if y not in zero_t]
